@@ -31,7 +31,11 @@ Record lshared := mkLS {
   lown : option nat;            (* owner of the list's mutex *)
   lregs : list (nat * option nat);   (* shared handle registers: node id or empty *)
   llog : list lact;
-  lsecs : list (nat * sec * bool)    (* ghost: the critical sections executed so far (thread, section, result), newest first *)
+  lsecs : list (nat * sec * bool);   (* ghost: the critical sections executed so far (thread, section, result), newest first *)
+  lbad : bool;                       (* ghost: some local code marked `locked` ran while its thread did not hold the mutex *)
+  ltravs : list (nat * nat * nat * list nat)
+                                     (* ghost: finished traversals (thread, length of lsecs when it read head, length of
+                                        lsecs when it ended, nodes it visited in order) *)
 }.
 
 Record llocals := mkLL {
@@ -40,10 +44,25 @@ Record llocals := mkLL {
   lbefore : option nat;         (* insert: the node the `before` handle locked to *)
   lcur : option nat;            (* traversal cursor *)
   lcapt : N;                    (* captured counter *)
-  lresb : bool
+  lresb : bool;
+  (* ghosts of the traversal argument (CLConcProj.v) *)
+  lvis : list nat;              (* nodes the current traversal has visited, oldest first *)
+  lph : bool;                   (* the node the cursor stands on has been looked at; the next own step is the advance *)
+  lp0 : nat                     (* length of lsecs when the current traversal read head *)
 }.
 
-Definition ll0 : llocals := mkLL None 0 None None 0 false.
+Definition ll0 : llocals := mkLL None 0 None None 0 false [] false 0.
+
+Definition ll_n l v := mkLL v (lk l) (lbefore l) (lcur l) (lcapt l) (lresb l) (lvis l) (lph l) (lp0 l).
+Definition ll_k l v := mkLL (ln l) v (lbefore l) (lcur l) (lcapt l) (lresb l) (lvis l) (lph l) (lp0 l).
+Definition ll_before l v := mkLL (ln l) (lk l) v (lcur l) (lcapt l) (lresb l) (lvis l) (lph l) (lp0 l).
+Definition ll_cur l v := mkLL (ln l) (lk l) (lbefore l) v (lcapt l) (lresb l) (lvis l) (lph l) (lp0 l).
+Definition ll_capt l v := mkLL (ln l) (lk l) (lbefore l) (lcur l) v (lresb l) (lvis l) (lph l) (lp0 l).
+Definition ll_resb l v := mkLL (ln l) (lk l) (lbefore l) (lcur l) (lcapt l) v (lvis l) (lph l) (lp0 l).
+(* the traversal's ghosts: start (cursor := head), a look at the current node, the step to the next node *)
+Definition ll_start l (c : option nat) (p : nat) := mkLL (ln l) (lk l) (lbefore l) c (lcapt l) (lresb l) [] false p.
+Definition ll_look l (v : list nat) := mkLL (ln l) (lk l) (lbefore l) (lcur l) (lcapt l) (lresb l) v true (lp0 l).
+Definition ll_step l (c : option nat) := mkLL (ln l) (lk l) (lbefore l) c (lcapt l) (lresb l) (lvis l) false (lp0 l).
 
 Inductive linstr :=
 | JLock | JUnlock | JInc | JLoad | JStart
@@ -52,12 +71,16 @@ Inductive linstr :=
 | JLoop                           (* the while(node) loop of doForEachIf; mode in the thread *)
 | JRes | JDone.
 
-Definition ls_grp s v := mkLS v (lcc s) (lown s) (lregs s) (llog s) (lsecs s).
-Definition ls_cc s v := mkLS (lgrp s) v (lown s) (lregs s) (llog s) (lsecs s).
-Definition ls_own s v := mkLS (lgrp s) (lcc s) v (lregs s) (llog s) (lsecs s).
-Definition ls_reg s h v := mkLS (lgrp s) (lcc s) (lown s) ((h, v) :: lregs s) (llog s) (lsecs s).
-Definition ls_log s e := mkLS (lgrp s) (lcc s) (lown s) (lregs s) (e :: llog s) (lsecs s).
-Definition ls_sec s e := mkLS (lgrp s) (lcc s) (lown s) (lregs s) (llog s) (e :: lsecs s).
+Definition ls_grp s v := mkLS v (lcc s) (lown s) (lregs s) (llog s) (lsecs s) (lbad s) (ltravs s).
+Definition ls_cc s v := mkLS (lgrp s) v (lown s) (lregs s) (llog s) (lsecs s) (lbad s) (ltravs s).
+Definition ls_own s v := mkLS (lgrp s) (lcc s) v (lregs s) (llog s) (lsecs s) (lbad s) (ltravs s).
+Definition ls_reg s h v := mkLS (lgrp s) (lcc s) (lown s) ((h, v) :: lregs s) (llog s) (lsecs s) (lbad s) (ltravs s).
+Definition ls_log s e := mkLS (lgrp s) (lcc s) (lown s) (lregs s) (e :: llog s) (lsecs s) (lbad s) (ltravs s).
+Definition ls_sec s e := mkLS (lgrp s) (lcc s) (lown s) (lregs s) (llog s) (e :: lsecs s) (lbad s) (ltravs s).
+Definition ls_bad s := mkLS (lgrp s) (lcc s) (lown s) (lregs s) (llog s) (lsecs s) true (ltravs s).
+Definition ls_trav s e := mkLS (lgrp s) (lcc s) (lown s) (lregs s) (llog s) (lsecs s) (lbad s) (e :: ltravs s).
+
+Definition holds (t : nat) (s : lshared) : bool := match lown s with Some u => Nat.eqb u t | None => false end.
 
 Definition reg_of (s : lshared) (h : nat) : option nat :=
   match lookup h (lregs s) with Some v => v | None => None end.
@@ -78,8 +101,7 @@ Definition W32 : N := 4294967296.
                      let sc := x s l in
                      let '(g1, b) := sec_step (lgrp s) sc in
                      (ls_sec (ls_grp s g1) (t, sc, b),
-                      mkLL (if adds sc then Some (length (heap (lgrp s))) else ln l) (lk l) (lbefore l) (lcur l) (lcapt l)
-                           (if adds sc then lresb l else b))).
+                      ll_resb (ll_n l (if adds sc then Some (length (heap (lgrp s))) else ln l)) (if adds sc then lresb l else b))).
 
   Definition lcode_of (c : lapi) : list linstr :=
     match c with
@@ -92,7 +114,7 @@ Definition W32 : N := 4294967296.
     | LInsert cb hb h =>
         (* NodePtr beforeNode = before.lock(): any node the handle still refers to (live or removed-but-alive);
            an empty handle gives null.  Both paths draw a counter, allocate and take the mutex once. *)
-        [JLocal false (fun _ s l => (s, mkLL (ln l) (lk l) (reg_of s hb) (lcur l) (lcapt l) (lresb l)))]
+        [JLocal false (fun _ s l => (s, ll_before l (reg_of s hb)))]
         ++ draw ++
         [JLock; do_sec true (fun _ l => SBefore cb (lk l) (lbefore l)); JUnlock;
          JLocal false (fun _ s l => (ls_reg s h (ln l), l)); JDone]
@@ -100,8 +122,10 @@ Definition W32 : N := 4294967296.
     | LOwns h => [JLock; do_sec true (fun s _ => SOwns (reg_of s h)); JUnlock; JRes]
     | LEmpty => [do_sec false (fun _ _ => SEmpty); JRes]
     | LInvoke _ | LForEach =>
-        [JLock; JLocal true (fun _ s l => (s, mkLL (ln l) (lk l) (lbefore l) (ghead (lgrp s)) (lcapt l) (lresb l))); JUnlock;
-         JLoad; JLoop; JDone]
+        [JLock; JLocal true (fun _ s l => (s, ll_start l (ghead (lgrp s)) (length (lsecs s)))); JUnlock;
+         JLoad; JLoop;
+         JLocal false (fun t s l => (ls_trav s (t, lp0 l, length (lsecs s), lvis l), l));     (* ghost: the traversal is over *)
+         JDone]
     end.
 Record lthread := mkLT { lcode : list linstr; lcalls : list lapi; lloc : llocals; lfin : bool; lmode : option Z (* Some a: invoke with a; None: forEach *) }.
 
@@ -115,8 +139,9 @@ Definition loop_body (mode : option Z) : list linstr :=
                             match node_of s n with
                             | Some nd =>
                                 if GenCL.visit_cond (ctr nd) (lcapt l)
-                                then (ls_log s (match mode with Some a => LaCall t (cb nd) a | None => LaVisit t (cb nd) end), l)
-                                else (s, l)
+                                then (ls_log s (match mode with Some a => LaCall t (cb nd) a | None => LaVisit t (cb nd) end),
+                                      ll_look l (lvis l ++ [n]))
+                                else (s, ll_look l (lvis l))
                             | None => (s, l)
                             end
                         | None => (s, l)
@@ -125,8 +150,8 @@ Definition loop_body (mode : option Z) : list linstr :=
         JLocal true (fun _ s l =>
                        match lcur l with
                        | Some n => match node_of s n with
-                                   | Some nd => (s, mkLL (ln l) (lk l) (lbefore l) (nxt nd) (lcapt l) (lresb l))
-                                   | None => (s, mkLL (ln l) (lk l) (lbefore l) None (lcapt l) (lresb l))
+                                   | Some nd => (s, ll_step l (nxt nd))
+                                   | None => (s, ll_step l None)
                                    end
                        | None => (s, l)
                        end);
@@ -146,7 +171,10 @@ Fixpoint ladvance (fuel : nat) (t : nat) (s : lshared) (th : lthread) : lshared 
           end
       | i :: rest =>
           match i with
-          | JLocal _ fn => let '(s1, l1) := fn t s (lloc th) in ladvance f t s1 (mkLT rest (lcalls th) l1 false (lmode th))
+          | JLocal b fn =>
+              (* ghost: note it if code that touches the links runs without the mutex *)
+              let s0 := if b && negb (holds t s) then ls_bad s else s in
+              let '(s1, l1) := fn t s0 (lloc th) in ladvance f t s1 (mkLT rest (lcalls th) l1 false (lmode th))
           | JIf c a b => ladvance f t s (mkLT ((if c s (lloc th) then a else b) ++ rest) (lcalls th) (lloc th) false (lmode th))
           | JLoop => ladvance f t s (mkLT (loop_body (lmode th) ++ rest) (lcalls th) (lloc th) false (lmode th))
           | JRes => ladvance f t (ls_log s (LaRes t (lresb (lloc th)))) (mkLT rest (lcalls th) (lloc th) false (lmode th))
@@ -161,7 +189,7 @@ Definition lenabled (s : lshared) (th : lthread) : bool :=
   match lcode th with
   | JLock :: _ => match lown s with None => true | Some _ => false end
   | _ :: _ => true
-  | [] => false
+  | [] => true          (* between two calls (only when ladvance ran out of fuel there): the next step starts the next call *)
   end.
 
 Fixpoint lset (l : list lthread) (i : nat) (x : lthread) : list lthread :=
@@ -186,15 +214,15 @@ Definition lperform (t : nat) (s : lshared) (ths : list lthread) : lshared * lis
             | JUnlock => (ls_own (ls_log s (LaUnlock t)) None, th1)
             | JInc => let v := ((lcc s + 1) mod W32)%N in
                       (ls_log (ls_cc s v) (LaInc t v),
-                       mkLT rest (lcalls th) (mkLL (ln (lloc th)) v (lbefore (lloc th)) (lcur (lloc th)) (lcapt (lloc th)) (lresb (lloc th))) false (lmode th))
+                       mkLT rest (lcalls th) (ll_k (lloc th) v) false (lmode th))
             | JLoad => (ls_log s (LaLoad t (lcc s)),
-                        mkLT rest (lcalls th) (mkLL (ln (lloc th)) (lk (lloc th)) (lbefore (lloc th)) (lcur (lloc th)) (lcc s) (lresb (lloc th))) false (lmode th))
+                        mkLT rest (lcalls th) (ll_capt (lloc th) (lcc s)) false (lmode th))
             | JStart => (s, th1)
             | _ => (s, th)
             end in
           let '(s2, th2) := ladvance LFUEL t s1 th1' in
           (s2, lset ths t th2)
-      | [] => (s, ths)
+      | [] => let '(s2, th2) := ladvance LFUEL t s th in (s2, lset ths t th2)
       end
   end.
 
@@ -221,7 +249,7 @@ Fixpoint lrun (fuel : nat) (s : lshared) (ths : list lthread) (sch : list nat) :
       end
   end.
 
-Definition ls0 : lshared := mkLS empty_group 0 None [] [] [].
+Definition ls0 : lshared := mkLS empty_group 0 None [] [] [] false [].
 Definition lstart (progs : list (list lapi)) : list lthread := map (fun p => mkLT [JStart] p ll0 false None) progs.
 
 Definition lc_run_case (fuel : nat) (progs : list (list lapi)) (schedule : list nat) : list lact * list nat :=
